@@ -546,6 +546,10 @@ def enumerations(tier):
         ("pop/1x1/rw/dt1-61", "pop", alphabet(U1, A1, [1, 0], [1, 61]), 8 if q else 10),
         ("pop/3x1/w/dt1", "pop", alphabet(U3, A1, [0], [1]), 8 if q else 10),
         ("pop/3x2/w/dt1-61", "pop", alphabet(U3, A2, [0], [1, 61]), 4 if q else 6),
+        # failures of several user names from one address with a SUCCESSFUL login of one of them in between
+        # (seeded/C18-3: a success that wipes the address's failure record)
+        ("imap/3x1/w+u1right/dt1", "imap", alphabet(U3, A1, [0], [1]) + alphabet(U1, A1, [1], [1]), 8 if q else 9),
+        ("pop/3x1/w+u1right/dt1", "pop", alphabet(U3, A1, [0], [1]) + alphabet(U1, A1, [1], [1]), 7 if q else 9),
     ]
     return E
 
